@@ -65,7 +65,31 @@ var c10BodyLines = []string{
 	"W.Arr [ 1 ] = -3 b2 = W.B == true",
 }
 
+var c10KwRe = regexp.MustCompile(`"[^"]*"|\b(rule|begin|end|salience|return|if|else|for|forRange|conc|continue|true|false)\b`)
+
+// c10KeywordCase rewrites the keywords of a text (outside string literals) in upper case
+// (mode 1) or with a capital first letter (mode 2): the keywords are case insensitive.
+func c10KeywordCase(text string, mode int) string {
+	return c10KwRe.ReplaceAllStringFunc(text, func(m string) string {
+		if strings.HasPrefix(m, "\"") {
+			return m
+		}
+		if mode == 1 {
+			return strings.ToUpper(m)
+		}
+		return strings.ToUpper(m[:1]) + m[1:]
+	})
+}
+
 func c10ValidText(t *rapid.T, c *C10Case) string {
+	text := c10ValidTextLower(t, c)
+	if pct(t, "kwcase", 25) {
+		text = c10KeywordCase(text, uni(t, "kwmode", 1, 2))
+	}
+	return text
+}
+
+func c10ValidTextLower(t *rapid.T, c *C10Case) string {
 	names := []string{"s0", "s1", "s2", "n0", "n1", "n2"}
 	perm := rapid.Permutation(names).Draw(t, "names")
 	n := uni(t, "nrules", 1, 4)
@@ -228,7 +252,7 @@ func (t *c10Target) observe(names []string) c10Obs {
 	return o
 }
 
-var c10HeaderRe = regexp.MustCompile(`rule "(\w+)" "[^"]*" salience (-?\d+)`)
+var c10HeaderRe = regexp.MustCompile(`(?i)rule "(\w+)" "[^"]*" salience (-?\d+)`)
 
 func (o c10Obs) key(withOrder bool) string {
 	var ex, rs []string
